@@ -1,14 +1,19 @@
 #!/usr/bin/env python3
 """Run the matrix for the given properties (in parallel) and clear/set the "open" marks according to the outcome.
 usage: openclean.py C01 C02 ...   (prints what is still open)"""
-import json, os, re, subprocess, sys
+import json, os, re, shutil, subprocess, sys, tempfile
 from concurrent.futures import ThreadPoolExecutor
 HERE = os.path.dirname(os.path.dirname(os.path.abspath(__file__)))
 P = os.path.join(HERE, "checker", "mutants.json")
+CACHE = tempfile.mkdtemp(prefix="shovelmut-gocache.")  # one build cache for the whole sweep, removed at the end
 def run(prop):
-    return prop, subprocess.run([sys.executable, os.path.join(HERE, "tools", "mutants.py"), "--prop", prop, "--nocross"], capture_output=True, text=True).stdout
-with ThreadPoolExecutor(max_workers=7) as ex:
-    outs = list(ex.map(run, sys.argv[1:]))
+    env = dict(os.environ, VERIF_GOCACHE=CACHE)
+    return prop, subprocess.run([sys.executable, os.path.join(HERE, "tools", "mutants.py"), "--prop", prop, "--nocross"], capture_output=True, text=True, env=env).stdout
+try:
+    with ThreadPoolExecutor(max_workers=7) as ex:
+        outs = list(ex.map(run, sys.argv[1:]))
+finally:
+    shutil.rmtree(CACHE, ignore_errors=True)
 db = json.load(open(P))
 for prop, out in outs:
     st = {}
